@@ -638,9 +638,25 @@ def wl_roundtrip(run, rng, idx):
     route = ROUTES[int(rng.integers(len(ROUTES)))]
     if cls == "ideal" and m_in == "hyperboloid":
         m_in = "projective"
+    exact_null = cls == "ideal" and idx % 3 == 0
+    if exact_null:
+        # axis-aligned ideal points: their stored vector (1, +-e_j) has Minkowski
+        # norm EXACTLY 0, which random ideal points (norm ~1e-17) never have; the
+        # hyperboloid reading of such a point cannot be normalised and comes back
+        # as it is (seeded change C01-r6-3: the hyperboloid setter re-projecting it
+        # into the interior; C01-r4-1: division by the zero norm)
+        fk = k.reshape(-1, n)
+        for row in range(0, fk.shape[0], 2):
+            e = np.zeros(n)
+            j = int(rng.integers(n))
+            # (+e_1 is the half-space model's point at infinity: excluded, as in rand_ideal)
+            e[j] = -1.0 if j == 0 else float(rng.choice([-1.0, 1.0]))
+            fk[row] = e
+        k = fk.reshape(k.shape)
+        m_in = ("klein", "poincare")[idx % 2]
     cin = r2.klein_to_model(k, m_in, rng)
     case = {"dimension": n, "shape": list(shape), "class": cls, "input_model": m_in,
-            "route": route, "klein_truth": k, "input_coords": cin}
+            "route": route, "klein_truth": k, "input_coords": cin, "exactly_null_rows": exact_null}
     run.current_case = case
     X = construct(cin, m_in, route, rng)
     flat_k = k.reshape(-1, n)
